@@ -136,6 +136,10 @@ def s1(tier):
                     for c in pin_menu(fn, f, idxs=(0, 1, -1, -2, 7, -8) if tier == 'thorough' else (0, -1, 1, 7)):
                         conss.append([c])
                 size = crossing_size(fm, cr)
+                # Pin exactly at / just past the end of the sequence (T = size, or size + 1 with a one-trial preamble)
+                for fn in names:
+                    for idx in (size, size + 1):
+                        conss.append([{'c': 'Pin', 'index': idx, 'factor': fn, 'level': names_of(fm[fn])[0]}])
                 for mt in (size + 1, size * 2 - 1, size * 2, size * 2 + 1):
                     if size < mt <= (9 if nb == 2 else 7):
                         conss.append([{'c': 'MinimumTrials', 'k': mt}])
@@ -529,7 +533,10 @@ def s6(tier):
     for (fo, bo) in outers:
         for (fi, bi) in inners:
             factors = fo + [f for f in fi if f not in fo]
+            have = {f['name'] for f in factors}
             for cs in nest_cons:
+                if any(c.get('factor') not in have for c in cs):
+                    continue
                 out.append(spec(factors, {'op': 'nest', 'outer': bo, 'inner': bi, 'constraints': cs}, 'S6'))
     # inner / outer blocks with a hidden weight factor or an implied derived factor
     Aw = basic('A', 2, [2, 1])
@@ -616,6 +623,17 @@ def s9(tier):
             inner2 = cross(['A', 'B'], ['A'], [])
             out.append(spec([A, B], {'op': 'repeat', 'block': inner2,
                                      'constraints': [{'c': cls, 'k': k, 'factor': 'B', 'level': 'b0'}, {'c': 'MinimumTrials', 'k': 4}]}, 'S9'))
+    # a four-trial block repeated with a partial last repetition that is shorter than / as long as the run length
+    for cls in classes:
+        for k, mts in ((1, (5,)), (2, (5, 6, 7)), (3, (7,))):
+            inner = cross(['A', 'B'], ['A', 'B'], [{'c': cls, 'k': k, 'factor': 'B', 'level': 'b0'}])
+            for mt in mts:
+                out.append(spec([A, B], {'op': 'repeat', 'block': inner, 'constraints': [{'c': 'MinimumTrials', 'k': mt}]}, 'S9'))
+    for idx in (3, 4, 5, -4, -5):
+        inner = cross(['A', 'B'], ['A', 'B'], [{'c': 'Pin', 'index': idx, 'factor': 'B', 'level': 'b0'}])
+        for mt in (None, 6, 8):
+            b = inner if mt is None else {'op': 'repeat', 'block': inner, 'constraints': [{'c': 'MinimumTrials', 'k': mt}]}
+            out.append(spec([A, B], b, 'S9'))
     for idx in (0, 1, 2, -1, -3, 5):
         inner = cross(['A', 'B', 'TA'], ['TA'], [{'c': 'Pin', 'index': idx, 'factor': 'B', 'level': 'b0'}])
         for mt in (5, 6, 7):
